@@ -116,7 +116,7 @@ fn rtu_parse_kernel<const N: usize>(request: bool) {
     let len: usize = kani::any();
     kani::assume(len <= N);
     let begin: usize = kani::any();
-    kani::assume(begin + len <= CAP);
+    kani::assume(begin <= CAP && len <= CAP - begin);
     let level = any_decode_level();
     let mut buf = buffer_with(&s, len, begin);
     let mut p = if request { RtuParser::new_request_parser() } else { RtuParser::new_response_parser() };
@@ -197,7 +197,7 @@ fn c06_rtu_split_q() {
     let s: [u8; 8] = kani::any();
     kani::assume(s[1] >= 1 && s[1] <= 6);
     let begin: usize = kani::any();
-    kani::assume(begin + 8 <= CAP);
+    kani::assume(begin <= CAP - 8);
     let k: usize = kani::any();
     kani::assume(k <= 8);
     let mut p = RtuParser::new_request_parser();
